@@ -154,6 +154,15 @@ def build_driver(engine, edir, driver_src=None):
     rc, out2 = sh(["ocamlfind", "ocamlopt", "-w", "-a", "model.mli", "model.ml"] + srcs + ["main.ml", "-o", os.path.join(BUILD, "driver_" + engine)], cwd=od, timeout=900)
     return rc == 0, out + out2
 
+def coqchk(pid, timeout=2400):
+    """Independent re-check of Properties/<pid>.vo and everything it depends on (thorough tier)."""
+    t0 = time.time()
+    with Lock("build.lock"):
+        rc, out = sh(["coqchk", "-o", "-silent", "-Q", ".", "CC", "CC.Properties.%s" % pid], cwd=COQ, timeout=timeout)
+    m = re.search(r"\* Axioms:\s*(.*?)\n\s*\n\* Constants", out, re.S)
+    axioms = " ".join(m.group(1).split()) if m else "?"
+    return {"ok": rc == 0, "axioms": axioms, "seconds": round(time.time() - t0, 1), "tail": out[-600:]}
+
 def prepare(engines, targets, pid=None):
     """regenerate + coq build of `targets` (.vo) + one driver per engine; serialised by a file lock.
     engines: list of (name, coq dir, [model .vo targets])"""
